@@ -1,11 +1,12 @@
 #!/bin/sh
-# usage: tools/seed_sweep.sh <tier> <seed>...   -- every registered check with each seed; evidence goes to a temp dir
+# usage: [VF_PROPS="C04 C05"] tools/seed_sweep.sh <tier> <seed>...   -- every registered check (or those in VF_PROPS) with each seed; evidence goes to a temp dir
 TIER=$1; shift
 HERE="$(cd "$(dirname "$0")/.." && pwd)"; cd "$HERE"
 EV=$(mktemp -d /tmp/vf-sweep-ev-XXXX)
 for s in "$@"; do
-  for p in $(python3 -c "import json;print(' '.join(c['property_id'] for c in json.load(open('MANIFEST.json'))['checks']))"); do
+  for p in ${VF_PROPS:-$(python3 -c "import json;print(' '.join(c['property_id'] for c in json.load(open('MANIFEST.json'))['checks']))")}; do
     out=$(VERIF_EVIDENCE_DIR=$EV ./check $p --tier $TIER --seed $s 2>&1); rc=$?
+    if [ $rc -ne 0 ]; then mkdir -p "$HERE/.sweep_failures/$TIER-seed$s-$p" && cp -r $EV/replays/$p-* "$HERE/.sweep_failures/$TIER-seed$s-$p/" 2>/dev/null; fi
     echo "seed=$s $p rc=$rc $(echo "$out" | grep -E "^$p:|INCONCLUSIVE|mechanism=" | cut -c1-260 | head -4 | tr '\n' '|')"
   done
 done
